@@ -12,6 +12,24 @@ def _mods():
 _FakeConn = None
 
 
+class _Watcher(object):
+    """event watcher; hashes by its id so that the iteration order of the watcher set (and thus a replay) is reproducible"""
+
+    def __init__(self, conn, et, wid, raises):
+        self.conn, self.et, self.wid, self.raises = conn, et, wid, raises
+
+    def __hash__(self):
+        return self.wid
+
+    def __eq__(self, other):
+        return self is other
+
+    def __call__(self, args):
+        self.conn.events.append(('W', self.et, self.wid, repr(sorted(args.items()))))
+        if self.raises:
+            raise RuntimeError('watcher %d fails' % self.wid)
+
+
 def fake_conn_class():
     global _FakeConn
     if _FakeConn is not None:
@@ -53,9 +71,18 @@ def fake_conn_class():
                     self.events.append(('E', _id, type(resp).__name__))
             self._requests[stream_id] = (cb, decoder, None)
 
-        def watch(self):
+        def watch(self, spec=None):
+            """spec: {event_type: [raises, ...]} -- one watcher per flag; a watcher records ('W', type, wid, args) and then
+            raises if its flag is set.  Default: one well-behaved watcher per event type."""
+            self.watcher_order = {}
+            wid = 0
             for et in ('TOPOLOGY_CHANGE', 'STATUS_CHANGE', 'SCHEMA_CHANGE'):
-                self._push_watchers[et].add(lambda args, _et=et: self.events.append(('W', _et, repr(sorted(args.items())))))
+                flags = (spec or {}).get(et, [False])
+                for raises in flags:
+                    wid += 1
+                    self._push_watchers[et].add(_Watcher(self, et, wid, raises))
+                # the order in which handle_pushed will iterate over this set object
+                self.watcher_order[et] = [(c.wid, c.raises) for c in self._push_watchers[et]]
 
         def feed(self, chunk):
             """what every reactor's handle_read does with the bytes of one recv()"""
@@ -209,7 +236,7 @@ def routed(evs):
             if hs:
                 out.append(('H', hs[0][1], hs[0][2], hs[0][3], len(hs)))
             elif ps:
-                out.append(('W', ps[0][1], ps[0][2], len(ws)))
+                out.append(('W', ps[0][1], ps[0][2], [w[2] for w in ws]))
             else:
                 out.append(('X', e[1]))
             i = j
